@@ -908,11 +908,14 @@ class ModelWorld(BaseWorld):
         nlinks = len(legacy.pairwise_links(ref))
         neps = sum(len(st) for k in ref.attacker_order for _, st in ref.attackers[k].eps)
         kind = weighted(rng, [(3, 'json'), (2, 'yaml'), (4, 'scad')])
+        read_fault = rng.random() < 0.12
         if kind == 'scad':
-            return {'op': 'legacy', 'kind': 'scad', 'flip': [rng.random() < 0.5 for _ in range(nlinks)],
+            return {'op': 'legacy', 'kind': 'scad', 'read_fault': read_fault,
+                    'flip': [rng.random() < 0.5 for _ in range(nlinks)],
                     'ep_flip': [rng.random() < 0.5 for _ in range(neps)],
                     'perm': rng.randrange(7), 'all_defenses': rng.random() < 0.3}
-        return {'op': 'legacy', 'kind': '0.0.39', 'fmt': kind, 'wrapper': rng.random() < 0.6,
+        return {'op': 'legacy', 'kind': '0.0.39', 'fmt': kind, 'read_fault': read_fault,
+                'wrapper': rng.random() < 0.6,
                 'shorthand': rng.random() < 0.5, 'all_defenses': rng.random() < 0.4,
                 'scalar_targets': rng.random() < 0.3, 'order': ids}
 
@@ -1692,6 +1695,29 @@ class ModelWorld(BaseWorld):
             cwd = os.getcwd()
             os.chdir(self.dir)
             try:
+                if op.get('read_fault'):
+                    # the archive cannot be read: the loader must fail, not return a model
+                    import types
+                    import zipfile as _zip
+                    state = {'n': 0}
+
+                    def failing_zip(*a, **kw):
+                        state['n'] += 1
+                        raise OSError(errno.EIO, 'injected EIO while opening the archive')
+                    shim = types.SimpleNamespace(ZipFile=failing_zip, BadZipFile=_zip.BadZipFile)
+                    real_zip = securicad.zipfile
+                    securicad.zipfile = shim
+                    try:
+                        f = call(securicad.load_model_from_scad_archive, os.path.basename(path),
+                                 self.lg, self.factory)
+                    finally:
+                        securicad.zipfile = real_zip
+                    if state['n']:
+                        self.count('fault:storage_EIO_scad_archive')
+                        self.count('oracle:C18.no_silent_failure')
+                        if not f.raised:
+                            self.fail('C18.no_silent_failure', 'load_model_from_scad_archive returned '
+                                                               'although the archive could not be read')
                 o = call(securicad.load_model_from_scad_archive, os.path.basename(path),
                          self.lg, self.factory)
             finally:
@@ -1714,6 +1740,16 @@ class ModelWorld(BaseWorld):
         else:
             path = self.fresh_path('.' + ('json' if op['fmt'] == 'json' else 'yml'))
             legacy.write_0_0_39(ref, self.L, path, op)
+            if op.get('read_fault'):
+                plan = faults.FaultPlan('EIO', 'read', 0, 'r')
+                with faults.patched_open([updater], plan):
+                    f = call(updater.load_model_from_version_0_0_39, path, self.factory)
+                if plan.fired:
+                    self.count('fault:storage_EIO_legacy_read')
+                    self.count('oracle:C18.no_silent_failure')
+                    if not f.raised:
+                        self.fail('C18.no_silent_failure', 'load_model_from_version_0_0_39 returned '
+                                                           'a model although reading the file failed')
             o = call(updater.load_model_from_version_0_0_39, path, self.factory)
             where = f'load_model_from_version_0_0_39(*.{op["fmt"]})'
             self.count('probe:legacy_0_0_39')
